@@ -10,7 +10,9 @@ ID = "C10"
 LEVEL = "exploration"
 RULE = ("all 12 ordered pairs of {kelvin, celsius, fahrenheit, Rankine} x {no prefix, every registered prefix} on the "
         "source or the target side x a magnitude list (int, float, Decimal; absolute zero of each scale; below absolute "
-        "zero; +-1e+-6) plus random magnitudes, chained round trips, differences and cross-scale comparisons; distinct = "
+        "zero; +-1e+-6) plus random magnitudes, chained round trips, differences and cross-scale comparisons; the plain table "
+        "is repeated after compound units carrying a scale at exponents -1, 2, -2 were converted and compared across scales "
+        "and after new declarations (history); distinct = "
         "(source scale, target scale, prefix side, prefix, magnitude bucket); non-trivial = source scale != target scale "
         "or a prefix is involved")
 ASSUMPTIONS = [
@@ -197,6 +199,53 @@ def run(ctx):
                         ctx.violation("C10:comparison-disagrees-with-kelvin",
                                       f"{m1!r} {a} vs {m2!r} {b}: {({k: v for k, v in got.items() if v != want[k]})}; kelvin {core.sf(k1)!r} vs {core.sf(k2)!r}",
                                       {"a": [repr(m1), a], "b": [repr(m2), b]})
+    # ---- the same table again after what a program working with temperatures does in between: compound units
+    # carrying a scale at an exponent other than 1 (heat capacity J/K -> J/degC, conductivity W/(m*K) -> W/(m*degF),
+    # 1/degC -> 1/R, K**2 -> degF**2) converted and compared across scales, and new declarations.  The values of
+    # those compound operations are not judged here; what is judged is every plain conversion that follows them
+    carriers = [None, U["joule"], U["watt"] / U["meter"], U["second"]]
+    hist_rounds = 1 if ctx.tier == "quick" else 6
+    for rnd in range(hist_rounds):
+        order = list(pairs)
+        rng.shuffle(order)
+        for k, (a, b) in enumerate(order):
+            for e in (-1, 2, -2):
+                c = rng.choice(carriers)
+                src = U[a] ** e if c is None else c * U[a] ** e
+                dst = U[b] ** e if c is None else c * U[b] ** e
+                for op in ("in_unit", "eq", "lt"):
+                    ctx.count("history/compound_operations_in_between")
+                    try:
+                        q1, q2 = rng.choice([1, 4184, 2.5]) * src, rng.choice([1, 7, 0.5]) * dst
+                        q1.in_unit(dst) if op == "in_unit" else (q1 == q2) if op == "eq" else (q1 < q2)
+                    except Exception as ex:
+                        ctx.count(f"history/compound_operations_raised/{type(ex).__name__}")
+            # straight afterwards, in both directions, and for a third scale
+            for (x, y) in ((a, b), (b, a), (a, rng.choice(SCALES)), (rng.choice(SCALES), b)):
+                if x == y:
+                    continue
+                for mag in rng.sample(fixed, 5):
+                    ctx.count("history/plain_conversions_after_compound_ones")
+                    check(x, None, y, None, mag)
+                pf = rng.choice(prefix_names)
+                check(x, pf, y, None, rng.choice(fixed))
+                check(x, None, y, pf, rng.choice(fixed))
+            if k % 5 == 4:
+                # a declaration in between (it also empties the library's memo tables)
+                n = f"zqc10s{ctx.shard}r{rnd}k{k}"
+                try:
+                    if rng.random() < 0.5:
+                        m.Unit.define(m.Temperature, n, n).equals(rng.choice([2, 0.5]) * U["kelvin"])
+                    else:
+                        m.Temperature.scale(rng.choice([100, 255.375]) * U["kelvin"], n, n)
+                    ctx.count("history/declarations_in_between")
+                except Exception as ex:
+                    ctx.count(f"history/declaration_raised/{type(ex).__name__}")
+        for a, b in pairs:
+            for mag in fixed:
+                ctx.count("history/plain_conversions_after_compound_ones")
+                check(a, None, b, None, mag)
+
     # absolute zero maps to absolute zero
     for a in SCALES:
         for b in SCALES:
